@@ -320,6 +320,45 @@ case_oneshot(int ai, size_t k, int which) {
 	return (bad);
 }
 
+/* Key CONTENTS that matter for Streebog: the 512-bit checksum adds whole blocks, the first of them is the keyed pad;
+ * keys made of ~0x36 (0xc9) / ~0x5c (0xa3) turn a pad into all-ones words, so every carry of the adder is exercised
+ * (and 0x36 / 0x5c keys into all-zero words); plus the two single-word variants.  Messages: counter bytes and 0xff. */
+static void
+gost_key_contents(void) {
+	static const uint8_t fills[6] = { 0xc9, 0xa3, 0xff, 0x00, 0x36, 0x5c };
+	static const size_t klens[4] = { 8, 32, 64, 65 }, mlens[6] = { 0, 1, 63, 64, 65, 128 };
+	uint8_t key[65], msg[128], want[64], got[64]; size_t dsz; int bits, kv, mi, mp; size_t ki, i, kl, ml;
+	hmac_gost3411_2012_ctx_t hctx;
+
+	for (bits = 256; bits <= 512; bits += 256) for (kv = 0; kv < 8; kv ++) for (ki = 0; ki < 4; ki ++) {
+		const char *target = (256 == bits) ? "hmac_gost3411_2012[256]/key-contents" : "hmac_gost3411_2012[512]/key-contents";
+		if (kv >= 6 && ki != 2) continue;	/* the single-word variants: 64-byte keys */
+		if (!vh_begin(target)) continue;
+		kl = klens[ki];
+		if (kv < 6) memset(key, fills[kv], kl);
+		else { memcpy(key, ref_key, kl); memset(key + ((6 == kv) ? 8 : 16), (6 == kv) ? 0xc9 : 0xa3, 8); }
+		vh_desc("key: %zu bytes, %s", kl, (kv < 6) ? "one byte value" : "LFSR with one all-ones pad word");
+		vh_publish_desc();
+		for (mp = 0; mp < 2; mp ++) for (mi = 0; mi < 6; mi ++) {
+			ml = mlens[mi];
+			for (i = 0; i < ml; i ++) msg[i] = mp ? 0xff : ref_hmsg[i];
+			ref_hmac_streebog(bits, key, kl, msg, ml, want);
+			memset(got, 0xEE, sizeof(got)); dsz = 0;
+			hmac_gost3411_2012((size_t)bits, key, kl, msg, ml, got, &dsz);
+			if (dsz != (size_t)bits / 8 || 0 != memcmp(got, want, dsz))
+				vh_fail("mac", "one call: key fill %d/%zu bytes, message %s x %zu: differs from RFC 2104 over the reference hash", kv, kl, mp ? "0xff" : "counter", ml);
+			memset(got, 0xEE, sizeof(got)); dsz = 0;
+			hmac_gost3411_2012_init((size_t)bits, key, kl, &hctx);
+			hmac_gost3411_2012_update(&hctx, msg, ml / 2);
+			hmac_gost3411_2012_update(&hctx, msg + ml / 2, ml - ml / 2);
+			hmac_gost3411_2012_final(&hctx, got, &dsz);
+			if (dsz != (size_t)bits / 8 || 0 != memcmp(got, want, dsz))
+				vh_fail("mac", "two updates: key fill %d/%zu bytes, message %s x %zu: differs from RFC 2104 over the reference hash", kv, kl, mp ? "0xff" : "counter", ml);
+		}
+		vh_nontrivial();
+	}
+}
+
 int
 main(int argc, char **argv) {
 	int ai, v, nal, bad, which;
@@ -377,6 +416,7 @@ main(int argc, char **argv) {
 			}
 		}
 	}
+	gost_key_contents();
 	h_flush_model(1);
 	return (vh_finish());
 }
